@@ -105,6 +105,39 @@ fn c01_flags() {
     core::mem::forget(nf);
 }
 
+/// hostname tokens: a host-anchored rule offers the tokens of its hostname unless the hostname itself contains a
+/// wildcard (IS_HOSTNAME_REGEX); pattern tokens are offered unless the pattern is a complete regex. Every
+/// other mask bit — including IS_REGEX — is symbolic (tokenisation never evaluates a regex).
+#[kani::proof]
+#[kani::unwind(12)]
+#[kani::stub(crate::utils::fast_hash, stub_fast_hash_rec)]
+#[kani::stub(regex::Regex::new, crate::verif_shim::stub_regex_new)]
+#[kani::stub(regex::Regex::is_match, crate::verif_shim::stub_regex_is_match)]
+fn c01_flags_host() {
+    let mut dr = crate::verif_shim::Draw::new();
+    let m: u32 = dr.u32() & !(1 << 15);
+    let mut nf = mk(NetworkFilterMask::from_bits_retain(m), FilterPart::Simple(String::from("ab/cd/ef")));
+    nf.hostname = Some(String::from("gh.ij"));
+    let g = nf.get_tokens();
+    assert!(g.len() == 1, "P:flags_host.one_group");
+    let complete = nf.mask.contains(NetworkFilterMask::IS_COMPLETE_REGEX);
+    let host_wild = nf.mask.contains(NetworkFilterMask::IS_HOSTNAME_REGEX);
+    let n_pattern = if complete { 0 } else { 2 };
+    let n_host = if host_wild { 0 } else { 2 };
+    let http_only = nf.mask.contains(NetworkFilterMask::FROM_HTTP) && !nf.mask.contains(NetworkFilterMask::FROM_HTTPS);
+    let https_only = nf.mask.contains(NetworkFilterMask::FROM_HTTPS) && !nf.mask.contains(NetworkFilterMask::FROM_HTTP);
+    unsafe {
+        assert!(RECN == n_pattern + n_host + if http_only || https_only { 1 } else { 0 }, "P:flags_host.count");
+        if !host_wild {
+            assert!(REC[n_pattern] == pack(b"gh") && REC[n_pattern + 1] == pack(b"ij"), "P:flags_host.hostname_tokens_offered_unless_hostname_has_wildcard");
+        }
+    }
+    kani::cover!(host_wild && !complete, "W:flags_host.wildcard_hostname");
+    kani::cover!(!host_wild && nf.mask.contains(NetworkFilterMask::IS_REGEX), "W:flags_host.regex_pattern_plain_hostname");
+    core::mem::forget(g);
+    core::mem::forget(nf);
+}
+
 // --------------------------------------------------------------------------------------------- C01.gt
 static mut MODE_B: bool = false;
 static mut TA: [u64; 4] = [0; 4];
